@@ -21,7 +21,12 @@ type Foreign struct {
 	Media        []string
 	StyleIDs     []string // style ids defined in styles.xml
 	HeadingStyle string
+	Wrapped      []WrappedText // run text that sits inside a wrapper construct (hyperlink, smart tag, ...)
+	RunTexts     []string      // the text of every run of the main part, in document order (each carries a unique token)
 }
+
+// WrappedText records which construct carries a piece of run text.
+type WrappedText struct{ Kind, Text string }
 
 func (f *Foreign) put(name string, data string) {
 	if _, ok := f.Parts[name]; !ok {
@@ -115,6 +120,8 @@ type fw struct {
 	f       *Foreign
 	p       string // element prefix for the w namespace ("" = default namespace)
 	text    strings.Builder
+	wrap    string // construct the runs currently written sit in
+	block   string // block-level construct the paragraphs currently written sit in
 	ids     map[string]bool
 	docRels []string // serialized Relationship elements of the main part
 	serial  int
@@ -188,6 +195,12 @@ func (w *fw) word() string {
 
 func (w *fw) run(text string) string {
 	w.text.WriteString(text)
+	w.f.RunTexts = append(w.f.RunTexts, text)
+	if w.block != "" { // a lost block takes everything inside with it
+		w.f.Wrapped = append(w.f.Wrapped, WrappedText{w.block, text})
+	} else if w.wrap != "" {
+		w.f.Wrapped = append(w.f.Wrapped, WrappedText{w.wrap, text})
+	}
 	rpr := ""
 	if w.r.Chance(1, 3) {
 		rpr = "<" + w.el("rPr") + "><" + w.el("b") + "/><" + w.el("color") + w.at("val", "FF0000") + "/></" + w.el("rPr") + ">"
@@ -223,22 +236,34 @@ func (w *fw) paragraph(depth int) string {
 		case 5:
 			w.feature("hyperlink-external")
 			id := w.rel("hyperlink", "http://example.com/?a=1&b="+Word(w.r, 1, 4), true)
+			w.wrap = "hyperlink"
 			b.WriteString(`<` + w.el("hyperlink") + ` r:id="` + id + `">` + w.run(w.word()) + w.run(w.word()) + "</" + w.el("hyperlink") + ">")
+			w.wrap = ""
 		case 6:
 			w.feature("hyperlink-anchor")
+			w.wrap = "hyperlink"
 			b.WriteString(`<` + w.el("hyperlink") + w.at("anchor", "bm1") + `>` + w.run(w.word()) + "</" + w.el("hyperlink") + ">")
+			w.wrap = ""
 		case 7:
 			w.feature("smartTag")
+			w.wrap = "smartTag"
 			b.WriteString(`<` + w.el("smartTag") + w.at("uri", "urn:x") + w.at("element", "place") + `>` + w.run(w.word()) + "</" + w.el("smartTag") + ">")
+			w.wrap = ""
 		case 8:
 			w.feature("ins")
+			w.wrap = "ins"
 			b.WriteString(`<` + w.el("ins") + w.at("id", "7") + w.at("author", "A") + `>` + w.run(w.word()) + "</" + w.el("ins") + ">")
+			w.wrap = ""
 		case 9:
 			w.feature("sdt-inline")
+			w.wrap = "sdt-inline"
 			b.WriteString(`<` + w.el("sdt") + `><` + w.el("sdtPr") + `/><` + w.el("sdtContent") + `>` + w.run(w.word()) + "</" + w.el("sdtContent") + "></" + w.el("sdt") + ">")
+			w.wrap = ""
 		case 10:
 			w.feature("fldSimple")
+			w.wrap = "fldSimple"
 			b.WriteString(`<` + w.el("fldSimple") + w.at("instr", " AUTHOR ") + `>` + w.run(w.word()) + "</" + w.el("fldSimple") + ">")
+			w.wrap = ""
 		case 11:
 			w.feature("tab-br")
 			b.WriteString("<" + w.el("r") + "><" + w.el("tab") + "/><" + w.el("br") + "/></" + w.el("r") + ">")
@@ -506,7 +531,9 @@ func MakeForeign(r *rng.R, opts ForeignOpts) *Foreign {
 			body.WriteString(w.table(0))
 		case 7:
 			w.feature("sdt-block")
+			w.block = "sdt-block"
 			body.WriteString("<" + w.el("sdt") + "><" + w.el("sdtPr") + "/><" + w.el("sdtContent") + ">" + w.paragraph(0) + w.paragraph(0) + "</" + w.el("sdtContent") + "></" + w.el("sdt") + ">")
+			w.block = ""
 		case 8:
 			if len(mediaIDs) > 0 {
 				w.feature("picture")
